@@ -34,11 +34,11 @@ RULE = ("every expression AST up to a node-count bound over atoms {a, b, [ab], [
         "where to stop); each is produced exactly once by the enumeration")
 BOUNDS = {
     "quick": "AST size <= 4 (4175 expressions) x 364 strings (len <= 5 over {a,b,c}) x {regex, regex_bytes}, whole input; "
-             "string/string_bytes wrappers for size <= 2; multi-byte family size <= 3 x 121 strings (len <= 4 over 3 symbols); "
+             "string/string_bytes wrappers for size <= 2; multi-byte family size <= 3 (170 expressions, 6 of them unsupported shapes) x 121 strings (len <= 4 over 3 symbols); "
              "chunked feeding for size <= 2 only",
     "thorough": "AST size <= 5 (44605 expressions) x 364 strings x {regex, regex_bytes} whole input; every 2-way chunking "
                 "and symbol-wise feeding for all expressions of size <= 4; wrappers for size <= 3; multi-byte family size <= 4 "
-                "x 364 strings (len <= 5), whole, every 2-way byte chunking and byte-wise",
+                "(1770 expressions, 156 of them unsupported shapes) x 364 strings (len <= 5), whole, every 2-way byte chunking and byte-wise",
 }
 ASSUMPTIONS = [
     "machines are built with terminal=True, greedy (the default) and a context, as README 'Detect if regular expression satisfied' documents",
